@@ -201,6 +201,9 @@ func PodsFromWorkloadObject(workload interface{}, kind string) ([]*Pod, error) {
 		replicas = getReplicas(obj.Spec.Replicas)
 		workloadName = obj.Name
 		workloadNamespace = obj.Namespace
+		if obj.Spec.Template == nil {
+			return nil, fmt.Errorf("%s %s has no pod template", kind, types.NamespacedName{Namespace: obj.Namespace, Name: obj.Name}.String())
+		}
 		podTemplate = *obj.Spec.Template
 		APIVersion = obj.APIVersion
 	case parser.CronJob:
